@@ -13,6 +13,7 @@ from vlib.env import Sandbox, Stage, Template, hx  # noqa: E402
 from vlib.objects import CLASSES, census  # noqa: E402
 from vlib.objworld import World, program_st  # noqa: E402
 from vlib.ref import Ref  # noqa: E402
+from vlib.worker import WorkerDied  # noqa: E402
 from vlib.runner import VERIF, Violation, main  # noqa: E402
 
 WEIGHTS = {"open": 3, "close": 1, "login": 3, "logout": 1, "create": 12, "copy": 3, "destroy": 3, "set": 6, "gen": 2, "genpair": 1,
@@ -147,6 +148,23 @@ class C05(ObjCheck):
                     self.run_fixture(ctx, prog)
                 except Violation as v:
                     v.program = prog
+                    return v
+        # deterministic sweep of the fault leg (clause d) over every call kind and (a stated subset of / all) its file-system operations
+        from vlib import faultleg
+        if "fstage" not in ctx.shared:
+            ctx.shared["fstage"] = Stage(ctx.env, ctx.shared["tpls"]["file"], reuse=False)
+        cells, total = faultleg.sweep_cells(ctx, tier, shard, nshards, ctx.shared["fstage"], ctx.shared["tpls"]["file"])
+        ctx.extra["fault_sweep_cells_total"] = total if shard == 0 else 0
+        for prog in cells:
+            try:
+                self.run_fault(ctx, prog)
+                ctx.label("fault_sweep_cells")
+            except Violation as v:
+                v.program = prog
+                return v
+            except WorkerDied as d:
+                v = self.on_worker_death(ctx, prog, d)
+                if v is not None:
                     return v
         return None
 
